@@ -1,12 +1,14 @@
 package main
 
 import (
+	"context"
 	"fmt"
 	"go/types"
 	"os"
 	"os/exec"
 	"sort"
 	"strings"
+	"sync"
 )
 
 // OblResult is the outcome of one obligation.
@@ -218,6 +220,14 @@ func ProveLemmaCtx(prog *Prog, specs *Specs, l *Lemma, tier string, c *checkCtx)
 	for _, e := range l.Ensures {
 		goals = append(goals, x.evalBool(env, e))
 	}
+	var splitTerms [][]string
+	for _, alts := range l.Splits {
+		var ts []string
+		for _, a := range alts {
+			ts = append(ts, x.evalBool(env, a))
+		}
+		splitTerms = append(splitTerms, ts)
+	}
 	var showTerms []string
 	if show := os.Getenv("GOVC_SHOW"); show != "" {
 		for _, e := range splitTop(show, ';') {
@@ -302,9 +312,9 @@ func ProveLemmaCtx(prog *Prog, specs *Specs, l *Lemma, tier string, c *checkCtx)
 		c.mu.Unlock()
 	}
 	base := x.sc.Text() + x.strLitDecls()
-	timeout := 20
+	timeout := 60
 	if tier == "thorough" {
-		timeout = 120
+		timeout = 300
 	}
 	if len(showTerms) > 0 {
 		terms := append(showTerms, x.witnesses...)
@@ -316,12 +326,78 @@ func ProveLemmaCtx(prog *Prog, specs *Specs, l *Lemma, tier string, c *checkCtx)
 			fmt.Printf("---- %s\n%s\n", name(i), out)
 		}
 	}
-	for i, g := range goals {
-		q := base + "(assert (not " + g + "))\n"
-		or := decide(name(i), q, timeout, tier == "thorough")
-		or.Kind, or.Site, or.Func, or.Lemma, or.Goal = "lemma", l.Ensures[i], strings.Join(l.Unfold, ","), l, g
-		res = append(res, or)
+	// side conditions: unsupported program points must be unreachable
+	for _, sc := range x.sideConds {
+		r := Solve(name(0)+".side", instVariant(base)+"(assert "+sc.cond+")\n", timeout, false, false)
+		if r.Status != "unsat" {
+			res = nil
+			for i := range l.Ensures {
+				res = append(res, OblResult{Name: name(i), Status: "unsupported", Detail: sc.why + " (reachable under the lemma's assumptions)", Lemma: l})
+			}
+			return res
+		}
 	}
+	// case splits: cross product of the alternatives; plus one obligation that the cases are exhaustive
+	type ccase struct {
+		label string
+		cond  string
+	}
+	cases := []ccase{{"", "true"}}
+	if len(splitTerms) > 0 {
+		for si, alts := range splitTerms {
+			var next []ccase
+			for _, c := range cases {
+				for ai, a := range alts {
+					next = append(next, ccase{fmt.Sprintf("%s.%d%c", c.label, si+1, 'a'+ai), and(c.cond, a)})
+				}
+			}
+			cases = next
+			q := base + "(assert (not " + or(alts...) + "))\n"
+			cr := decide(fmt.Sprintf("%s.split%d-exhaustive", name(0), si+1), q, timeout, false)
+			cr.Kind, cr.Site, cr.Lemma = "lemma", "case split is exhaustive: "+strings.Join(l.Splits[si], " | "), l
+			res = append(res, cr)
+		}
+	}
+	type job struct {
+		i int
+		c ccase
+	}
+	var jobs []job
+	for i := range goals {
+		for _, c := range cases {
+			jobs = append(jobs, job{i, c})
+		}
+	}
+	out := make([]OblResult, len(jobs))
+	var wg sync.WaitGroup
+	sem := make(chan struct{}, 5)
+	for ji, j := range jobs {
+		wg.Add(1)
+		go func(ji int, j job) {
+			defer wg.Done()
+			sem <- struct{}{}
+			defer func() { <-sem }()
+			q := base
+			if j.c.cond != "true" {
+				q += "(assert " + j.c.cond + ")\n"
+			}
+			q += "(assert (not " + goals[j.i] + "))\n"
+			nm := name(j.i)
+			if j.c.label != "" {
+				nm += "/case" + j.c.label
+			}
+			var or OblResult
+			if len(cases) > 1 && tier != "thorough" {
+				or = decideLight(nm, q, timeout)
+			} else {
+				or = decide(nm, q, timeout, tier == "thorough")
+			}
+			or.Kind, or.Site, or.Func, or.Lemma, or.Goal = "lemma", l.Ensures[j.i], strings.Join(l.Unfold, ","), l, goals[j.i]
+			out[ji] = or
+		}(ji, j)
+	}
+	wg.Wait()
+	res = append(res, out...)
 	// one vacuity probe per lemma
 	if len(goals) > 0 {
 		r := Solve(name(0)+".cover", base, 10, false, false)
@@ -381,7 +457,7 @@ func decide(name, q string, timeout int, thorough bool) OblResult {
 	n := 1
 	if qf != q {
 		n = 2
-		go func() { ch <- ans{Solve(name+".qf", qf, timeout, true, false), true} }()
+		go func() { ch <- ans{SolveOne(name+".qf", qf, timeout, "z3-new-5.1.0"), true} }()
 	}
 	var full, weak *SolveResult
 	for i := 0; i < n; i++ {
@@ -421,6 +497,46 @@ func decide(name, q string, timeout int, thorough bool) OblResult {
 			or.Model = weak.Model
 			or.Detail += " (candidate model from the quantifier-free weakening)"
 		}
+	}
+	return or
+}
+
+// decideLight is used for the many small cases of a split lemma: the three
+// z3 5.1 configurations only, on the instantiated variant.
+func decideLight(name, q string, timeout int) OblResult {
+	or := OblResult{Name: name, SMTBytes: len(q), Query: q}
+	iq := instVariant(q)
+	type ans struct {
+		st, solver string
+		secs       float64
+		model      string
+	}
+	names := []string{"z3-new-5.1.0", "z3-new-5.1.0/arith2", "z3-new-5.1.0/norelevancy"}
+	ch := make(chan ans, len(names))
+	ctx, cancel := context.WithCancel(context.Background())
+	defer cancel()
+	for _, n := range names {
+		go func(n string) {
+			r := solveOneCtx(ctx, name, iq, timeout, n)
+			ch <- ans{r.Status, n, r.Secs, r.Model}
+		}(n)
+	}
+	or.Status = "unknown"
+	for range names {
+		a := <-ch
+		if a.st == "unsat" {
+			or.Status, or.Solver, or.Secs = "proved", a.solver, a.secs
+			return or
+		}
+		if a.st == "sat" && or.Status != "failed" {
+			or.Status, or.Solver, or.Secs, or.Model = "failed", a.solver, a.secs, a.model
+		}
+		if a.secs > or.Secs {
+			or.Secs = a.secs
+		}
+	}
+	if or.Status == "unknown" {
+		or.Detail = "timeout"
 	}
 	return or
 }
